@@ -214,7 +214,14 @@ pub fn gen_scenario(rng: &mut Rng) -> Scenario {
 			1 | 2 => Some(String::new()),
 			_ => Some(rng.pick(&dirs).clone()),
 		};
-		let lines = (0..(1 + rng.usize(4))).map(|_| gen_line(rng)).collect();
+		let mut lines: Vec<String> = (0..(1 + rng.usize(4))).map(|_| gen_line(rng)).collect();
+		match rng.below(8) {
+			// an ignore file without any pattern (comments / blank lines only) must be transparent
+			0 => lines = vec!["# nothing to ignore here".into(), String::new()],
+			1 => lines.insert(0, "# a comment".into()),
+			2 => lines.push(String::new()),
+			_ => {}
+		}
 		entries.push(IgEntry { dir, lines });
 	}
 	Scenario { dirs, files, entries }
